@@ -1720,8 +1720,14 @@ class SpaceUpdater(SharedSpaceOperations):
         for n in nx.descendants(self._graph, node):
             self._graph.get_mro(n)
 
+        if refs:
+            for key in refs:
+                if not is_valid_name(key):
+                    raise ValueError("Invalid name '%s'." % key)
+
         # Check name conflict between the members of the bases
-        self._check_conflict(self._graph.get_mro(node)[1:])
+        # and the references given
+        self._check_conflict(self._graph.get_mro(node)[1:], refs=refs or ())
 
         if container is None:
             container = parent._named_spaces
@@ -1752,15 +1758,20 @@ class SpaceUpdater(SharedSpaceOperations):
 
         self._update_manager()
 
+        for ref in space.own_refs.values():
+            if ref.is_defined():
+                self.model.refmgr.remember_ref(ref)
+
         return space
 
-    def _check_conflict(self, mro, spaces=()):
+    def _check_conflict(self, mro, spaces=(), refs=()):
         """Raise NameError if a name would denote members of different kinds
 
         ``mro``: nodes whose cells and references are inherited,
-        ``spaces``: names of the child spaces (not inherited).
+        ``spaces``: names of the child spaces (not inherited),
+        ``refs``: names of the references of the space itself.
         """
-        cells, refs = set(), set()
+        cells, refs = set(), set(refs)
         for node in mro:
             space = self._graph.to_space(node)
             cells.update(space.cells)
@@ -2050,6 +2061,12 @@ class ReferenceManager:
                 )
                 if spec:
                     self._manager.del_spec(spec)
+
+    def remember_ref(self, ref):
+        """Register a defined reference created together with its space"""
+        if not isinstance(ref.interface, Interface):
+            self._valid_to_refs.setdefault(
+                id(ref.interface), []).append(ref)
 
     def forget_ref(self, ref):
         """Unregister a defined reference deleted together with its space"""
